@@ -131,6 +131,9 @@ RULES = {
         ("Tree", "build_timestamp", [None, "1", 0, 0.0], "doc: build_timestamp <int|float>"),
         ("Variant", "id", ["a-b", 5, None], "treeinfo variant id: no dash (dash separates UID parts)"),
         ("Variant", "type", ["bogus", None, "layered-product", "Variant"], "treeinfo.VARIANT_TYPES"),
+        ("Variant", "name", [None, 0, False, [], 7], "doc treeinfo-1.1: name <str> (an option of the INI file: text or nothing)"),
+        ("VariantPaths", "packages", [0, False, [], 7], "doc: packages <str> relative path"),
+        ("VariantPaths", "repository", [0, False, []], "doc: repository <str> relative path"),
         ("Stage2", "mainimage", ["/abs/stage2.img", 5], "doc: mainimage relative path to Anaconda stage2 image"),
         ("Media", "discnum", ["1", 1.5], "doc: discnum <int>"),
         ("Media", "totaldiscs", ["2", 1.5], "doc: totaldiscs <int>"),
